@@ -30,15 +30,12 @@ Definition table : list erow :=
     mkRow "indexes.go" "fkConstraint.CheckIntegrity" 0 DReturn "if err != nil";
     mkRow "indexes.go" "fkIndex.CheckIntegrity" 0 DReturn "if err != nil";
     mkRow "indexes.go" "fkIndex.CheckIntegrity" 1 DReturn "if err != nil";
-    mkRow "indexes.go" "fkIndex.CheckIntegrity" 2 DReturn "if err != nil";
     mkRow "indexes.go" "setIndex.CheckIntegrity" 0 DReturn "if err != nil";
     mkRow "indexes.go" "setIndex.CheckIntegrity" 1 DReturn "if err != nil";
     mkRow "indexes.go" "setIndex.CheckIntegrity" 2 DReturn "if err != nil";
     mkRow "indexes.go" "setIndex.CheckIntegrity" 3 DReturn "if err != nil";
-    mkRow "indexes.go" "setIndex.CheckIntegrity" 4 DReturn "if err != nil";
     mkRow "indexes.go" "uniqueIndex.CheckIntegrity" 0 DReturn "if err != nil";
     mkRow "indexes.go" "uniqueIndex.CheckIntegrity" 1 DReturn "if err != nil";
-    mkRow "indexes.go" "uniqueIndex.CheckIntegrity" 2 DReturn "if err != nil";
     mkRow "indexes.go" "uniqueIndex.Read" 0 DOther "if indexBucket.Err != nil";
     mkRow "link_collection.go" "LinkedSetSymbol.AddCompoundLink" 0 DReturn "if err != nil";
     mkRow "link_collection.go" "LinkedSetSymbol.RemoveCompoundLink" 0 DReturn "if err != nil";
